@@ -64,16 +64,16 @@ def hedge_interpret(hedge: str, return_type="interval") -> I | Pbox:
     splitted_list = hedge.split()
 
     # parse the numeric value denoted as x
-    x = [s for s in splitted_list if is_number(s)][0]
+    x_str = [s for s in splitted_list if is_number(s)][0]
 
     # decipher the number is a float or an integer or sci-notation
-    if "." in x:
-        x = float(x)
+    if "." in x_str or "e" in x_str.lower():
+        x = float(x_str)
     else:
-        x = int(x)
+        x = int(x_str)
 
-    # parse the decimal place 'd'
-    d = decipher_d(x)
+    # parse the decimal place 'd' from the numeral as it is written
+    d = decipher_d(x_str)
 
     # parse the keyword
     try:
@@ -246,11 +246,14 @@ def decipher_zrf(num, d):
 
 
 def decipher_d(x):
-    """parse the decimal place d from a number"""
-    d = count_sigfigs(str(x))
-    bias_num = count_sig_digits_bias(x)
-    d = d - bias_num
-    return d
+    """parse the decimal place d of the last written digit of a number
+
+    note:
+        ``d`` is minus the decimal exponent of the last digit, e.g. 2 for "12.50",
+        0 for "-200", 1 for "0.5", -2 for "1.5e3". It depends neither on the sign
+        nor on leading zeros.
+    """
+    return -Decimal(str(x)).as_tuple().exponent
 
 
 def is_number(n):
